@@ -190,10 +190,24 @@ def run_full(spec):
         bad_cases.append(("unknown-left", dict(lhs_called_contests=["QQ_99"], rhs_called_contests=[], stop_model_call=[])))
         bad_cases.append(("unknown-right", dict(lhs_called_contests=[], rhs_called_contests=[names[0] + "x"],
                                                 stop_model_call=[])))
+        # a state the config names for this office but that has no unit in the run (its baseline rows are not in the
+        # file yet): it is not being modelled, naming it must be rejected like any unknown contest
+        ghost = "XX" if not el.district else "XX_1"
+        bad_cases.append(("configured-state-without-units-" + ["left", "right", "stop", "both"][(spec["i"] // 4) % 4],
+                          [dict(lhs_called_contests=[ghost], rhs_called_contests=[], stop_model_call=[]),
+                           dict(lhs_called_contests=[], rhs_called_contests=[ghost], stop_model_call=[]),
+                           dict(lhs_called_contests=[ghost], rhs_called_contests=[], stop_model_call=[ghost]),
+                           dict(lhs_called_contests=[ghost], rhs_called_contests=[ghost], stop_model_call=[])][
+                              (spec["i"] // 4) % 4]))
     kind, upd = bad_cases[spec["i"] % len(bad_cases)]
     c3 = copy.deepcopy(call)
     c3.update(upd)
-    res3, exc3 = harness.run_estimates(el, feed, c3)
+    el3 = el
+    if kind.startswith("configured-state-without-units"):
+        el3 = copy.deepcopy(el)
+        cfg0 = el3.config[el3.election_id][0]
+        cfg0["states"] = list(cfg0["states"]) + ["XX"]
+    res3, exc3 = harness.run_estimates(el3, feed, c3)
     out["counters"]["invalid_list_runs"] = 1
     if not isinstance(exc3, BootstrapElectionModelException):
         got = "estimates" if exc3 is None else type(exc3).__name__
